@@ -96,7 +96,10 @@ try:
             print('RESULT %s UNKNOWN-DEMO-PACKAGE %s' % (sid, pkg)); sys.exit(3)
         if os.path.basename(f).startswith('zz_demo_b_optics'):
             continue  # optional second demo needing a modfile recipe
-        demos.append((f, PKGDIR[pkg]))
+        where = PKGDIR[pkg]
+        if pkg == 'seq_test' and 'fogfish/golem/seq' in open(f).read():
+            where = 'internal/seq'  # the internal package has the same test-package name as trait/seq
+        demos.append((f, where))
     bad = suite()
     if bad:
         print('RESULT %s SUITE-FAILS-WITH-CHANGE %s\n%s' % (sid, bad[0][0], bad[0][1])); sys.exit(1)
